@@ -38,6 +38,7 @@ var (
 	errLeftmostNonPrivate  = fmt.Errorf("%w: unable to find a valid or non-private IP", ErrLeftmostNonPrivate)
 	errRightmostNonPrivate = fmt.Errorf("%w: unable to find a valid or non-private IP", ErrRightmostNonPrivate)
 	errSingleIPHeader      = fmt.Errorf("%w: header not found", ErrSingleIPHeader)
+	errEmptyChain          = errors.New("chain resolver: no resolver configured")
 )
 
 // TrustedIPRange returns a set of trusted IP ranges.
@@ -93,6 +94,11 @@ func (s Chain) ClientIP(c fox.Context) (*net.IPAddr, error) {
 			return ipAddr, nil
 		}
 		errs = errors.Join(errs, err)
+	}
+
+	if errs == nil {
+		// An empty chain has no address to report: it must not return a nil address without an error.
+		return nil, errEmptyChain
 	}
 
 	return nil, errs
